@@ -62,7 +62,7 @@ func runC07(b *mon.B) {
 			b.Inconclusive("configuration %d did not load: %v", ci, err)
 			continue
 		}
-		ref.Net.KeepLog = false
+		ref.Net.SetKeepLog(false)
 		for k := 0; k < perCfg; k++ {
 			caseNo++
 			scope := sc.Scopes[r.Intn(len(sc.Scopes))]
@@ -269,7 +269,7 @@ func c07Components(b *mon.B, r *gen.R, caseNo *int) {
 			}
 			b.Eval(1)
 			n := simnet.New()
-			n.KeepLog = false
+			n.SetKeepLog(false)
 			tp := tap.New(n)
 			secret := []byte("component")
 			srv := kit.Start(n, tp, lg, &tap.Static{Secret: secret, Handler: tp.Wrap("component", cp.h)})
